@@ -98,6 +98,9 @@ func (e *SpecEnv) term(v Val) *Term {
 		var arr *Term
 		if x.Cell.Dyn {
 			arr = cv
+			if len(x.Path) > 0 {
+				arr, _ = projectDyn(cv, x.Cell.Typ, x.Path)
+			}
 		} else {
 			arr, _ = project(cv, x.Cell.Typ, x.Path)
 		}
